@@ -28,7 +28,31 @@ fn pick_secs(rng: &mut Rng) -> u64 {
     }
 }
 
+/// F mode: the real binary under a swept wall clock; every response a closed-loop client receives
+/// is bracketed by the harness's own clock readings around the exchange.
+fn gen_bracket(seed: u64) -> Plan {
+    let mut rng = Rng::derive(seed, "c11-bracket");
+    let mut plan = Plan::new("C11", "c11.full_system_bracket", seed);
+    let mut s = ServerSpec::basic(Mode::F, &random_seed_hex(&mut rng));
+    s.workers = *rng.pick(&[1i64, 2, 4]);
+    s.batch_size = *rng.pick(&[1i64, 8, 64]);
+    s.source = if rng.chance(1, 2) { ConfigSource::File } else { ConfigSource::Env };
+    world_knobs(&mut rng, &mut plan, false);
+    plan.world.wall_secs = pick_secs(&mut rng).min(Y9999 - 20);
+    plan.world.wall_nanos = *rng.pick(&EDGES);
+    plan.server = Some(s);
+    let clients = 1 + rng.below(8) as u32;
+    for c in 0..clients {
+        plan.step(20_000 + rng.below(2_000), Action::ClosedLoop { sock: c, protos: vec![P::Classic, P::Ietf], count: 2 + rng.below(6) as u32, think_us: *rng.pick(&[0u64, 300, 20_000]), timeout_ms: 1000 });
+    }
+    plan.world.horizon_ms = 20 + 8 * 1100;
+    plan
+}
+
 fn gen(seed: u64, idx: u64, _tier: Tier) -> Plan {
+    if idx % 8 == 7 {
+        return gen_bracket(seed);
+    }
     let mut rng = Rng::derive(seed, "c11");
     let mut plan = Plan::new("C11", match idx % 4 { 2 => "c11.frozen_edges", 3 => "c11.retransmissions", _ => "c11.sweep_and_steps" }, seed);
     let mut s = ServerSpec::basic(Mode::W, &random_seed_hex(&mut rng));
@@ -74,11 +98,48 @@ fn gen(seed: u64, idx: u64, _tier: Tier) -> Plan {
     plan
 }
 
+fn check_bracket(plan: &Plan, out: &RunOut, co: &mut CheckOut) {
+    // wall(t) = wall_start + t in this scenario (no steps): what the harness's own clock says
+    let base = plan.world.wall_secs as i128 * 1_000_000_000 + plan.world.wall_nanos as i128;
+    for cl in &out.ctx.closed_loop {
+        let answered: Vec<usize> = (0..cl.sent.len()).filter(|i| !cl.timed_out_requests.contains(i)).collect();
+        for (k, (resp, t_got)) in cl.got.iter().enumerate() {
+            let i = match answered.get(k) {
+                Some(i) => *i,
+                None => break,
+            };
+            let (req, t_sent) = &cl.sent[i];
+            let info = match r::classify_request(req, &out.ctx.srv) {
+                Ok(i) => i,
+                Err(_) => continue,
+            };
+            let ver = match r::verify_response(resp, &r::VerifyOpts { proto: info.proto, request: req, nonce: &info.nonce, long_term_pk: Some(&out.ctx.long_pk), require_nonce_echo: true, lenient: false }) {
+                Ok(v) => v,
+                Err(_) => continue,
+            };
+            let unit: i128 = if info.proto == r::Proto::Classic { 1_000 } else { 1_000_000_000 };
+            let before = (base + *t_sent as i128) / unit;
+            let after = (base + *t_got as i128) / unit;
+            let m = ver.midp as i128;
+            if m < before || m > after {
+                co.violate("C11", "midp_mismatch", format!("C11|midpoint_outside_bracket|proto={}", info.proto.name()), format!("client {} request {}: MIDP {} is outside the harness's own clock readings around the exchange [{}, {}] ({})", cl.sock, i, m, before, after, if info.proto == r::Proto::Classic { "microseconds" } else { "seconds" }));
+            }
+            if ver.radi != info.proto.radius_5s() {
+                co.violate("C11", "radi_mismatch", format!("C11|radi_mismatch|proto={}", info.proto.name()), format!("RADI {} is not five seconds in the protocol's unit", ver.radi));
+            }
+            co.probe("bracketed_response");
+        }
+    }
+}
+
 fn check(plan: &Plan, out: &RunOut) -> CheckOut {
     let mut co = CheckOut::default();
     let v = View::build(out);
     co.nontrivial = !v.sends.is_empty();
     check_no_panic(&mut co, "C11", out);
+    if plan.scenario == "c11.full_system_bracket" {
+        check_bracket(plan, out, &mut co);
+    }
     for b in &v.batches {
         if b.sends.is_empty() {
             continue;
@@ -167,7 +228,7 @@ pub fn property() -> Property {
         gen,
         check,
         finalize: no_finalize,
-        rule: "one evaluation = one simulated execution of 1-2 real Server workers under a simulated wall clock that starts anywhere from the epoch to year 9999 on a sub-second edge and is stepped, set or frozen between and during 2-6 request rounds; every clock read is logged; non-trivial = at least one response sent; distinct = distinct schedule fingerprints",
+        rule: "seven in eight evaluations: one simulated execution of 1-2 real Server workers under a simulated wall clock that starts anywhere from the epoch to year 9999 on a sub-second edge and is stepped, set or frozen between and during 2-6 request rounds; every clock read is logged; one in eight: the real main() (1-4 workers) under a swept wall clock with closed-loop clients whose every exchange brackets the signed midpoint between the harness's own clock readings; non-trivial = at least one response sent; distinct = distinct schedule fingerprints",
         assumptions: &["the clock reading of a batch is any reading that worker took between the first receive of the cycle and the batch's first send"],
         real: REAL_W,
         stub: STUB,
